@@ -57,12 +57,17 @@ theorem c10_parse_ser (S : NStore) (h : WFN S) : parseStore S.pol S.ser = .ok (e
 
 /-- The nested store fiano attaches to a parsed entry (`NVar.NVarStore`): for the entry of a value
     that is a store `n` of the grammar it is the parsed form of `n` (none when `n` has no entry: its
-    bytes are erased space); for every other entry there is none. -/
+    bytes are erased space); for every other entry there is none.  Since fixes/C10-nested-ext-header.diff
+    (wp-nvfix) an entry WITH an extended header never carries a nested store, whatever its content is:
+    the second clause says so for an entry whose content (value + header) happens to coincide with the
+    bytes of a sub-store (no new hypothesis: the conclusion distinguishes the case; for `ext = none` it is
+    the former statement, and under the former, narrower grammar the other case could not occur). -/
 theorem c10_parse_nested (S : NStore) (h : WFN S) (r : Row) (hr : r ∈ table S.flat) :
     (∀ ns, nestedOf S.pol (expectNVar S.pol S.guids r) = some ns →
       ∃ n ∈ S.subs, ns = expectStore n.flat ∧ r.entry.content = n.ser) ∧
     (∀ n ∈ S.subs, r.entry.content = n.ser → (∀ a nx b, r.entry ≠ .dead a nx b) →
-      nestedOf S.pol (expectNVar S.pol S.guids r) = if n.entries = [] then none else some (expectStore n.flat)) :=
+      nestedOf S.pol (expectNVar S.pol S.guids r) =
+        if n.entries = [] ∨ r.entry.ext.isSome = true then none else some (expectStore n.flat)) :=
   nested_of_rows S h r hr
 
 /-- **nv_roundtrip**: a well-formed store — values that are stores included, to any depth — parses,
